@@ -799,6 +799,9 @@ type Data struct {
 
 	metadata   map[Schema][]byte
 	metadataMu sync.RWMutex
+
+	// Serializes the read-modify-write of one annotation (store read, memory update, store write).
+	updateMu sync.Mutex
 }
 
 // IsMutationRequest overrides the default behavior to specify POST /query as an immutable
@@ -1420,6 +1423,12 @@ func (d *Data) storeAndUpdate(ctx *datastore.VersionedCtx, keyStr string, newDat
 		return err
 	}
 
+	// The stored annotation is read, merged with the received fields and written to the memory
+	// copy and to the store: without one lock around all of it a concurrent update of the same
+	// body is lost, or memory and store end up holding different annotations.
+	d.updateMu.Lock()
+	defer d.updateMu.Unlock()
+
 	// get original data so we can handle default update and tell which values change for _user/_time fields.
 	origData, found, err := d.getStoreData(ctx, keyStr)
 	if err != nil {
@@ -1591,6 +1600,8 @@ func (d *Data) DeleteData(ctx storage.VersionedCtx, keyStr string) error {
 	if err != nil {
 		return err
 	}
+	d.updateMu.Lock()
+	defer d.updateMu.Unlock()
 	mdb, found := d.getMemDBbyVersion(ctx.VersionID())
 	if found {
 		mdb.mu.Lock()
